@@ -76,6 +76,10 @@ func containingRepo(d *kern.Disk, file string) string {
 }
 
 func composeWorkflow(c *Chooser, o GenOpts, wi int) (text string, assetNames []string, groups []string) {
+	if o.Ties && c.Weighted("world.tiewf", 1, 12) {
+		i := c.Int("world.tiewfsel", len(tieWorkflows))
+		return tieWorkflows[i], nil, []string{fmt.Sprintf("tie-workflow-%d", i)}
+	}
 	var hdr string
 	if o.Ties && c.Weighted("world.tiehdr", 1, 4) {
 		hdr = tieHeaders[c.Int("world.tiehdrsel", len(tieHeaders))]
